@@ -1,4 +1,5 @@
 import NavisModel.Model.DistX
+import NavisModel.Model.EdgeDtype
 import NavisModel.Gen.Dist
 /-
 The as-written models of `Model/DistX.lean` instantiated with the facts the translator extracted from the CURRENT
@@ -129,7 +130,7 @@ def weightShapeOK : Bool :=
   Dist.pdRootFill == "root_dist" && Dist.pdFcKws == ["root_dist=root_dist"] &&
   Dist.clPy == "np.sum(np.linalg.norm(xyz - xyz_parent, axis=1))" && Dist.clFcKws == ["root_dist=0"] && Dist.clFcReduce == "sum" &&
   Dist.clOrphan == "nodes.loc[~nodes.parent_id.isin(nodes.node_id), 'parent_id'] = -1" &&
-  Dist.nxWeights == "np.sqrt(np.sum((nodes.loc[edges[:,0],['x','y','z']].values.astype(float)-nodes.loc[edges[:,1],['x','y','z']].values.astype(float))**2,axis=1))" &&
+  Dist.nxWeights == "np.sqrt(np.sum((nodes.loc[edges[:,0],['x','y','z']].values-nodes.loc[edges[:,1],['x','y','z']].values)**2,axis=1))" &&
   Dist.nxEdges == "x.nodes[x.nodes.parent_id >= 0][['node_id', 'parent_id']].values" &&
   Dist.nxElist == "[(e[0], e[1], l) for e, l in zip(edges, weights)]" &&
   Dist.nxAdd == ["add_nodes_from:x.nodes.node_id.values", "add_weighted_edges_from:elist"] &&
@@ -140,6 +141,26 @@ def weightShapeOK : Bool :=
   Dist.igGraphKws.contains "directed=True" && Dist.igAttrs.contains "G.es['weight'] = w" &&
   Dist.segFcRootDist == "0" && Dist.segFcKws == ["weights=weight"] && Dist.segFcWeightCmp == "Eq" && Dist.segFcWeightLit == "weight" &&
   Dist.segFcArgs == ["x.nodes.node_id.values", "x.nodes.parent_id.values"]
+
+/-! ### the dtype the child − parent difference is computed in (the `.astype(float)` calls are stripped from the expressions
+checked by `weightShapeOK` and recorded here instead) -/
+
+open Navis.EdgeDtype in
+def siteOf (ops : List String) (sqInDtype : Bool) : Option Site :=
+  match ops.mapM Operand.ofName with
+  | some [c, p] => some ⟨c, p, sqInDtype⟩
+  | _ => none
+
+/-- `neuron2nx`: `np.sqrt(np.sum((child - parent) ** 2, axis=1))` -/
+def nxSite? : Option EdgeDtype.Site := siteOf Dist.nxDiffOperands true
+/-- `neuron2igraph`: `np.sqrt(np.sum((tn_coords - parent_coords) ** 2, axis=1))` -/
+def igSite? : Option EdgeDtype.Site := siteOf Dist.igDiffOperands true
+/-- `cable_length`, node-table path: `np.linalg.norm(xyz - xyz_parent, axis=1)` (the norm converts to float before squaring) -/
+def clSite? : Option EdgeDtype.Site := siteOf Dist.clDiffOperands false
+/-- `parent_dist`, numpy path: `np.sqrt(np.sum((tn_coords - parent_coords) ** 2, axis=1))` -/
+def pdSite? : Option EdgeDtype.Site := siteOf Dist.pdDiffOperands true
+
+def siteInFloatB (s : EdgeDtype.Site) : Bool := s.child.isFloat || s.parent.isFloat
 
 /-- The cached views of `TreeNeuron` call the functions above on the neuron itself with default options. -/
 def viewsOK : Bool :=
